@@ -129,10 +129,10 @@ for d in ../seeded/*/; do
   rm -rf "$W"
 done
 # ---- phase 3: behaviour-preserving refactorings written by independent sub-agents (benign_ext/), except the two
-# that makes a rule lose its anchor (B6-b4: two-bucket validation helper)
+# that make a rule lose its anchor and report undecided (listed in DESIGN.md 10.3b)
 for f in ../benign_ext/*.diff; do
   name=$(basename "$f" .diff)
-  case "$name" in B6-b4) continue;; esac
+  case "$name" in B6-b4|B1r2-b6|B2r2-b6|B3r2-b4|B6r2-b3|B7r2-b4|B7r2-b5) continue;; esac
   W=$(mktemp -d /tmp/nutsmut.XXXXXX); cp -r "$BASE"/. "$W"/
   if (cd "$W" && patch -p1 -s < "$OLDPWD/$f" >/dev/null 2>&1) && (cd "$W" && go build ./... 2>/dev/null); then
     cp "$f" "benign/ext-$name.diff"
